@@ -102,6 +102,38 @@ func (f *FS) lookup(abs string, followLast bool, depth int) (*Node, syscall.Errn
 	return cur, 0
 }
 
+// Resolve returns abs with every symbolic link on the way replaced by what it points to (filepath.EvalSymlinks).
+func (f *FS) Resolve(abs string, depth int) (string, syscall.Errno) {
+	if depth > 16 {
+		return "", syscall.ELOOP
+	}
+	parts := split(abs)
+	cur := f.Root
+	curPath := ""
+	for i, name := range parts {
+		if cur.Kind != KDir {
+			return "", syscall.ENOTDIR
+		}
+		child, ok := cur.Children[name]
+		if !ok {
+			return "", syscall.ENOENT
+		}
+		if child.Kind == KLink {
+			tgt := child.Target
+			if !strings.HasPrefix(tgt, "/") {
+				tgt = curPath + "/" + tgt
+			}
+			return f.Resolve(path.Clean(tgt+"/"+strings.Join(parts[i+1:], "/")), depth+1)
+		}
+		cur = child
+		curPath = curPath + "/" + name
+	}
+	if curPath == "" {
+		curPath = "/"
+	}
+	return curPath, 0
+}
+
 func (f *FS) parentOf(abs string) (*Node, string, syscall.Errno) {
 	dir, name := path.Split(abs)
 	if name == "" {
